@@ -1,5 +1,6 @@
 import IceModel.TaskLoop
 import IceSpec.C10
+import IceSpec.C10View
 import Driver.Util
 /-!
 # Driver component `taskloop` (property C10, tie A)
@@ -25,71 +26,11 @@ a race (`onceWin`, `closeDoneCh`, `handoff`, `loopDone`) are explored both ways 
 namespace Driver.TaskLoop
 open IceModel.TaskLoop hiding State init step
 open IceSpec.C10 Driver
+open IceSpec.C10.View (HEv parseTok toEv)
 
 abbrev MState := IceModel.TaskLoop.State
 def mInit : MState := IceModel.TaskLoop.init
 def modelStep : MState → Action → Option MState := IceModel.TaskLoop.step
-
-/-- Recorded event (as `Ev`, plus who made a nested call). -/
-inductive HEv where
-  | submit (i : Nat) | nested (p i : Nat) | cancel (i : Nat) | tstart (i : Nat) | tend (i : Nat)
-  | ret (i : Nat) (r : Option RunRes) | ccall (j : Nat) (pre : Bool) | prestop | onclose | oncloseEnd | cret (j : Nat)
-  deriving Inhabited
-
-def natOfChars (cs : List Char) : Option Nat :=
-  if cs.isEmpty then none else
-  cs.foldl (fun acc c => match acc with
-    | none => none
-    | some n => if c.isDigit then some (n * 10 + (c.toNat - '0'.toNat)) else none) (some 0)
-
-def splitAt (sep : Char) (cs : List Char) : List Char × List Char :=
-  (cs.takeWhile (· != sep), (cs.dropWhile (· != sep)).drop 1)
-
-def parseTok (t : String) : Option HEv :=
-  match t.toList with
-  | ['p'] => some .prestop
-  | ['o'] => some .onclose
-  | ['O'] => some .oncloseEnd
-  | 's' :: r => (natOfChars r).map .submit
-  | 'x' :: r => (natOfChars r).map .cancel
-  | 'b' :: r => (natOfChars r).map .tstart
-  | 'e' :: r => (natOfChars r).map .tend
-  | 'd' :: r => (natOfChars r).map .cret
-  | 'n' :: r =>
-    let (a, b) := splitAt '.' r
-    match natOfChars a, natOfChars b with
-    | some p, some i => some (.nested p i)
-    | _, _ => none
-  | 'r' :: r =>
-    let (a, b) := splitAt ':' r
-    match natOfChars a, b with
-    | some i, ['n'] => some (.ret i (some RunRes.nil))
-    | some i, ['c'] => some (.ret i (some RunRes.ctx))
-    | some i, ['k'] => some (.ret i (some RunRes.closed))
-    | some i, ['?'] => some (.ret i none)
-    | _, _ => none
-  | 'c' :: r =>
-    let (a, b) := splitAt ':' r
-    match natOfChars a, b with
-    | some j, ['0'] => some (.ccall j false)
-    | some j, ['1'] => some (.ccall j true)
-    | _, _ => none
-  | _ => none
-
-/-- The observable event the spec monitor sees. `none` for a Run that returned an unknown error. -/
-def toEv : HEv → Option Ev
-  | .submit i => some (.submit i)
-  | .nested _ i => some (.submit i)
-  | .cancel i => some (.cancel i)
-  | .tstart i => some (.taskStart i)
-  | .tend i => some (.taskEnd i)
-  | .ret i (some r) => some (.runReturn i r)
-  | .ret _ none => none
-  | .ccall j _ => some (.closeCall j)
-  | .prestop => some .prestopRun
-  | .onclose => some .oncloseRun
-  | .oncloseEnd => some .oncloseEnd
-  | .cret j => some (.closeReturn j)
 
 /-! ## acceptance by the model -/
 
@@ -253,11 +194,7 @@ def histLine (hmeta : String) (toks : List String) (impl : String) : Res :=
     let hung := (hmeta.splitOn ".").contains "hung" || impl == "hung"
     let mon : Option String :=
       if hung then some "a Run or Close call did not return (deadlock) — recorded history is incomplete"
-      else if evs.any (fun e => match e with | .ret _ none => true | _ => false) then
-        some "Run returned an error that is neither ctx.Err() nor ErrClosed"
-      else
-        let h := evs.filterMap toEv
-        if complete then completeViolation h c.nSub c.nClose else monitor h
+      else IceSpec.C10.View.monitorEvs complete c.nSub c.nClose evs
     let (model, inc) := match accept c evs with
       | .accepted => ("recorded", none)
       | .rejected k => (s!"rejected:event-{k}-{toks.getD k "?"}-has-no-enabled-model-action", none)
